@@ -12,12 +12,12 @@ From SV Require Import Proofs.TcpSendBase Proofs.TcpSendInv.
 From SV Require Proofs.TcpLiveProofs.
 From SV Require Import Proofs.TcpNetBase.
 
-(* what a step hands to the wire or would have handed to it (a refused transmit token is included:
-   the statement is about every segment the socket constructs) *)
+(* what a step hands to the wire (= Model/TcpNet.v's [wire_out]): a reply of process_tcp, or a
+   segment dispatch handed to a device that had a transmit token *)
 Definition tx_emitted (out : step_out) : option packet :=
   match out with
   | OReply (Some p) => Some p
-  | ODispatch (DSent p) | ODispatch (DEmitFailed p) => Some p
+  | ODispatch (DSent p) => Some p
   | _ => None
   end.
 
